@@ -118,17 +118,21 @@ package dispatcher
 //@ ghost var signedReq *http.Request
 //@ ghost var lastSecret []byte
 //@ ghost var selectAt time.Time
+//@ ghost var lastResolveErr error
+//@ ghost var lastPolicyErr error
 
 //@ iface dispatcher.resolver.LookupIPAddr(self, ctx, host) (addrs, err)
 
 //@ func resolveHostIPs
-//@   modifies resolvedIPs
+//@   modifies resolvedIPs, lastResolveErr
 //@   sets resolvedIPs := result0
+//@   sets lastResolveErr := result1
 //@   ensures [no_need] !needIPs ==> result1 == nil && len(result0) == 0
-//@   ensures [tied] resolvedIPs == result0
+//@   ensures [tied] resolvedIPs == result0 && lastResolveErr == result1
 
 //@ func checkEgressPolicyURL
-//@   modifies resolvedIPs, egressOKURL
+//@   modifies resolvedIPs, egressOKURL, lastResolveErr
+//@   ensures [C06:every_refusal_is_a_policy_denial_or_the_resolver_error] result != nil ==> errIs(result, ErrPolicyDenied) || (result == lastResolveErr && (policy.DNSRebindProtection || anyCIDR(policy.Allow) || anyCIDR(policy.Deny)))
 //@   sets egressOKURL := ite(result == nil, u, old(egressOKURL))
 //@   loop 1 invariant [all_allowed] forall k int :: 0 <= k && k <= rangeindex ==> allowedIPSpec(ips[k])
 //@   ensures [C16:nil_means_allowed] result == nil ==> u != nil && (lower(u.Scheme) == "http" || lower(u.Scheme) == "https") && (policy.HTTPSOnly ==> lower(u.Scheme) == "https") && egressHost(u) != "" && (policy.DNSRebindProtection ==> forall k int :: 0 <= k && k < len(resolvedIPs) ==> allowedIPSpec(resolvedIPs[k])) && !rulesMatch(egressHost(u), resolvedIPs, policy.Deny) && (len(policy.Allow) > 0 ==> rulesMatch(egressHost(u), resolvedIPs, policy.Allow))
@@ -139,13 +143,17 @@ package dispatcher
 //@   ensures [C16:ok_marks_url] (result == nil ==> egressOKURL == u) && (result != nil ==> egressOKURL == old(egressOKURL))
 
 //@ func checkEgressPolicy
-//@   modifies resolvedIPs, egressOKURL
+//@   modifies resolvedIPs, egressOKURL, lastResolveErr, lastPolicyErr
+//@   sets lastPolicyErr := result
+//@   ensures [tied] lastPolicyErr == result
+//@   ensures [C06:every_refusal_is_a_policy_denial_or_a_parse_or_resolver_error] result != nil ==> errIs(result, ErrPolicyDenied) || result == lastResolveErr || result == ext2("net/url.Parse", "$1", rawURL)
 //@   ensures [C16:ok_marks_parsed_url] result == nil ==> egressOKURL == ext("net/url.Parse", rawURL) && egressOKURL != nil
 //@   ensures [C16:error_marks_nothing] result != nil ==> egressOKURL == old(egressOKURL)
 
 //@ func (*HTTPDeliverer).checkRedirect
 //@   requires d != nil && req != nil
-//@   modifies resolvedIPs, egressOKURL
+//@   modifies resolvedIPs, egressOKURL, lastResolveErr
+//@   ensures [C06:redirect_refusal_is_a_policy_denial] result != nil && result != http.ErrUseLastResponse ==> errIs(result, ErrPolicyDenied) || result == lastResolveErr
 //@   ensures [C16:redirect_hop_checked] result == nil ==> len(via) < 10 && egressOKURL == req.URL && req.URL != nil
 
 //@ func NewHTTPDeliverer$1
@@ -172,3 +180,7 @@ package dispatcher
 //@   calls net/http.(*Client).Do requires [C16:send_only_after_policy] req.URL == egressOKURL && egressOKURL != nil && egressOKURL == ext("net/url.Parse", delivery.URL)
 //@   calls net/http.(*Client).Do requires [C17:send_only_when_signed] signedReq == req
 //@   ensures [C16:at_most_one_send] sends == old(sends) || sends == old(sends) + 1
+//@   ensures [C06:policy_refusal_reported_unchanged] lastPolicyErr != nil ==> result.Err == lastPolicyErr && sends == old(sends)
+//@   ensures [C06:no_send_means_error] sends == old(sends) ==> result.Err != nil
+//@   ensures [C06:transport_error_keeps_denial_identity] sends == old(sends) + 1 && lastDoErr != nil ==> result.Err != nil && (errIs(lastDoErr, ErrPolicyDenied) ==> errIs(result.Err, ErrPolicyDenied))
+//@   ensures [C06:status_is_the_response_status] sends == old(sends) + 1 && lastDoErr == nil ==> result.Err == nil && result.StatusCode == lastRespCode
